@@ -76,6 +76,19 @@ class Run:
     def bounded_result(self, name, bound, cases, failures):
         self.bounded.append(dict(name=f'{self.prop}/bounded/{name}', bound=bound, cases=cases, failures=failures))
 
+    def bounded_native(self, name, script, bound, env=None, timeout=600):
+        """bounded stand-in / witness search: a script under /verif/bounded run natively (3.12) against the repository
+        under test; it prints one JSON line {"cases": n, "failures": [...]}.  Labelled bounded, never counted as proved."""
+        e = dict(os.environ, VERIF_REPO=REPO, PYTHONPATH=REPO, VERIF_SEED=str(self.seed), **(env or {}))
+        try:
+            p = subprocess.run([NATIVE_PY, os.path.join(HERE, 'bounded', script)], capture_output=True, text=True, timeout=timeout, env=e, cwd='/')
+            line = [l for l in p.stdout.splitlines() if l.startswith('{')][-1]
+            res = json.loads(line)
+        except Exception as err:
+            self.errors.append(f'bounded/{name}: {type(err).__name__}: {err}')
+            return
+        self.bounded.append(dict(name=f'{self.prop}/bounded/{name}', bound=bound, cases=res.get('cases', 0), failures=res.get('failures', [])))
+
     def assume(self, text): self.assumptions.add(text)
     def trust(self, text): self.trusted.add(text)
     def unclaim(self, text): self.unclaimed.append(text)
@@ -161,6 +174,16 @@ def main(argv=None):
     t1 = time.time()
     results = solve.discharge(obs)
     solve_s = time.time() - t1
+    # obligations left open: try to decide them on the slice of hypotheses that shares symbols with the goal
+    for o, r in zip(obs, results):
+        if r['result'] == 'unknown' and o.kind != 'canary':
+            try:
+                m = solve.refute_on_slice(o)
+            except z3.Z3Exception:
+                m = None
+            if m is not None:
+                r['result'] = 'sat'; r['solver'] = 'z3-5.1 (goal slice)'
+                r['out'] = 'sat on the quantifier-free slice of hypotheses connected to the goal'
     groups = group(obs, results)
     findings = [f for f in load_known_findings() if f.get('property') == prop]
     open_f = [f for f in findings if f.get('status') == 'open']
